@@ -4,7 +4,7 @@ CHECK_DEADLOCK FALSE
 CONSTANTS
   Elems = {1, 2, 3}
   MaxLen = 7
-  ErrKs = {1, 2, 3, 5, 8}
+  ErrKs = {1, 2, 3, 5, 8, 40, 300}
   Seeds = {1, 2, 3}
   PatLens = {12, 13, 24, 50, 51, 100, 257}
   SimMin = 12
